@@ -46,7 +46,7 @@ LEVEL_TEXT = (
 THEOREMS = [("Kopf.Props.C19", "Kopf.C19." + n) for n in [
     "no_skip_inv", "no_skip", "deliver_in_order", "resume_point", "relist_on_410_partial",
     "relist_covers_everything", "relist_on_410_http_witness", "unknown_error_raises", "failed_is_final",
-    "paused_silent", "fresh_list_on_resume", "adjust_keys", "watchers_nodup", "kept_tasks_kept",
+    "paused_silent", "pause_noticed_is_quiet", "fresh_list_on_resume", "outs_is_ghost", "adjust_keys", "watchers_nodup", "kept_tasks_kept",
     "exactly_one_watch_partial", "exactly_one_watch_lingering_witness"]]
 RULE = ("stream scripts: 0-2 pre-existing objects, cluster-wide or namespaced watch, 3-10 moments at dyadic times, each a "
         "cluster of 1-3 ops in random order from {create/edit/delete/other-resource write, break eof/conn/410/error/garbage, "
@@ -682,9 +682,8 @@ def absorb(ctx: Ctx, res: dict, source: str, pending: dict) -> None:
     if "harness_error" in res:
         raise RuntimeError(f"harness error in a {kind} case: {res['harness_error']}\n{res.get('tb', '')}")
     if "sim_error" in res:
-        ctx.oracle_fail(f"the simulation of a {kind} case stalled or deadlocked: {res['sim_error']}",
-                        {"kind": kind, "case": case}, {"site": kind, "shape": "simulation stalled"})
-        return
+        raise RuntimeError(f"the simulation of a {kind} case stalled or deadlocked (harness problem, not a verdict): "
+                           f"{res['sim_error']}; case={json.dumps(case)[:1500]}")
     ctx.traces += 1
     for what, sig in res["fails"]:
         ctx.oracle_fail(what, {"kind": kind, "case": case, "source": source}, sig)
